@@ -1,7 +1,7 @@
 (* C17 runner.  Case lines:
      RM <ops|-> <queries|->     ops = a:l:r,r:l:r,f:o,c     queries = l:r,l:r
        -> one S[...] per op (state after it), then one Q(a,b) per query on the final state.
-     RD page=.. unit=.. pool=.. tp=.. maxr=.. thr=.. refilling=.. src=<hex> actual=.. filled=.. media=<hex>
+     RD tne=.. page=.. unit=.. pool=.. tp=.. maxr=.. thr=.. refilling=.. src=<hex> actual=.. filled=.. media=<hex>
         td=.. sor=.. wor=.. ops=<op,op,..>
        op = R/off/seg+seg/held/flags | E/off/cnt | T
        -> one token per op `ret:ubufhex:events`, then the final store. *)
@@ -59,7 +59,7 @@ let run_rd kvs =
   let g k = Hashtbl.find tbl k in
   let gz k = z_of_string (g k) in
   let cfg = { c_page = gz "page"; c_unit = gz "unit"; c_pool = (g "pool" = "1"); c_tp = (g "tp" = "1");
-              c_maxr = gz "maxr"; c_thr = gz "thr" } in
+              c_maxr = gz "maxr"; c_thr = gz "thr"; c_tne = (try g "tne" = "1" with Not_found -> false) } in
   let st = { s_actual = gz "actual"; s_filled = parse_filled (g "filled"); s_media = unhex (g "media");
              s_td = (g "td" = "1"); s_refilling = gz "refilling" } in
   let w = { w_st = st; w_sor = parse_outcomes (g "sor"); w_wor = parse_outcomes (g "wor"); w_ubuf = [];
